@@ -138,4 +138,113 @@ theorem planarHelper_spec' (ssx offset width yoff : Nat) (hs : 0 < ssx) (ho : of
     · intro c hc
       exact htc c (Nat.zero_le _) (by omega)
 
+/-! ### one row: `ChannelConversionBuffer::process_bi_planar` -/
+
+/-- the aligned chunks of `process_bi_planar` (after the offset chunk: `d` pixels and `dcx` chroma
+samples consumed) -/
+def plChunks (ssx d dcx width' pref yoff : Nat) : List PlRun :=
+  (stepStarts width' pref).flatMap fun cs =>
+    (planarHelper ssx 0 (min (cs + pref) width' - cs) yoff).map
+      (PlRun.shift 0 (d + cs) (d + cs) 0 (dcx + cs / ssx) 0)
+
+theorem plChunks_sound (ssx offset d dcx width' pref yoff : Nat) (hs : 0 < ssx) (hp : 0 < pref)
+    (hdvd : pref % ssx = 0) (hal : 0 < width' → offset + d = dcx * ssx) :
+    ∀ r ∈ plChunks ssx d dcx width' pref yoff, r.row = 0 ∧ r.ly = 0 ∧ r.cy = 0 ∧ r.yoff = yoff ∧ d ≤ r.col ∧
+      r.col + r.n ≤ d + width' ∧ r.lx = r.col ∧ r.px + r.n ≤ ssx ∧ r.cx * ssx ≤ offset + r.col ∧
+      offset + r.col + r.n ≤ (r.cx + 1) * ssx := by
+  intro r hr
+  unfold plChunks at hr
+  simp only [List.mem_flatMap, List.mem_map] at hr
+  obtain ⟨cs, hcs, r0, hr0, rfl⟩ := hr
+  obtain ⟨k, hk, rfl⟩ := (mem_stepStarts hp).1 hcs
+  have hmul : (k * pref) / ssx * ssx = k * pref :=
+    Nat.div_mul_cancel (Nat.dvd_trans (Nat.dvd_of_mod_eq_zero hdvd) (Nat.dvd_mul_left pref k))
+  obtain ⟨a1, a2, a3, a4, a5, a6, a7, a8, a9⟩ :=
+    (planarHelper_spec' ssx 0 (min (k * pref + pref) width' - k * pref) yoff hs hs).sound r0 hr0
+  have ha := hal (by omega)
+  have e1 : (r0.cx + (dcx + k * pref / ssx)) * ssx = r0.cx * ssx + (dcx * ssx + k * pref) := by
+    rw [Nat.add_mul, Nat.add_mul, hmul]
+  have e2 : (r0.cx + (dcx + k * pref / ssx) + 1) * ssx = r0.cx * ssx + (dcx * ssx + k * pref) + ssx := by
+    rw [Nat.succ_mul, e1]
+  have e3 : (r0.cx + 1) * ssx = r0.cx * ssx + ssx := Nat.succ_mul _ _
+  unfold PlRun.shift
+  refine ⟨?_, ?_, ?_, a4, ?_, ?_, ?_, a7, ?_, ?_⟩
+  · show r0.row + 0 = 0; omega
+  · show r0.ly + 0 = 0; omega
+  · show r0.cy + 0 = 0; omega
+  · show d ≤ r0.col + (d + k * pref); omega
+  · show r0.col + (d + k * pref) + r0.n ≤ d + width'; omega
+  · show r0.lx + (d + k * pref) = r0.col + (d + k * pref); omega
+  · show (r0.cx + (dcx + k * pref / ssx)) * ssx ≤ offset + (r0.col + (d + k * pref)); omega
+  · show offset + (r0.col + (d + k * pref)) + r0.n ≤ (r0.cx + (dcx + k * pref / ssx) + 1) * ssx; omega
+
+theorem plChunks_cover (ssx d dcx width' pref yoff : Nat) (hs : 0 < ssx) (hp : 0 < pref) :
+    ∀ c, d ≤ c → c < d + width' → ∃ r ∈ plChunks ssx d dcx width' pref yoff, r.col ≤ c ∧ c < r.col + r.n := by
+  intro c hc1 hc2
+  have hx : c - d < width' := by omega
+  obtain ⟨h1, h2, h3⟩ := chunk_of hp hx
+  have hmem : (c - d) / pref * pref ∈ stepStarts width' pref := (mem_stepStarts hp).2 ⟨_, h1, rfl⟩
+  obtain ⟨r0, hr0, g1, g2⟩ :=
+    (planarHelper_spec' ssx 0 (min ((c - d) / pref * pref + pref) width' - (c - d) / pref * pref) yoff hs hs).cover
+      (c - d - (c - d) / pref * pref) (by omega)
+  refine ⟨PlRun.shift 0 (d + (c - d) / pref * pref) (d + (c - d) / pref * pref) 0
+    (dcx + (c - d) / pref * pref / ssx) 0 r0, ?_, ?_, ?_⟩
+  · unfold plChunks
+    simp only [List.mem_flatMap, List.mem_map]
+    exact ⟨_, hmem, r0, hr0, rfl⟩
+  · show r0.col + (d + (c - d) / pref * pref) ≤ c; omega
+  · show c < r0.col + (d + (c - d) / pref * pref) + r0.n; omega
+
+theorem convPlanar_eq_true (nbpp ssx offset width yoff : Nat) :
+    convPlanar true nbpp ssx offset width yoff =
+      (if offset ≠ 0 then planarHelper ssx offset (min (ssx - offset) width) yoff else []) ++
+      plChunks ssx (if offset ≠ 0 then min (ssx - offset) width else 0) (if offset ≠ 0 then 1 else 0)
+        (if offset ≠ 0 then width - min (ssx - offset) width else width)
+        (roundDown (BUFFER_BYTES / nbpp) ssx) yoff := by
+  unfold convPlanar plChunks
+  simp only [Bool.not_true, Bool.false_eq_true, if_false]
+
+/-- `ChannelConversionBuffer::process_bi_planar`, with or without conversion.  With conversion the
+buffer must hold one macro pixel (`ssx ≤ 3072 / native_bpp`), else `step_by(0)` panics. -/
+theorem convPlanar_spec (conv : Bool) (nbpp ssx offset width yoff : Nat) (hs : 0 < ssx) (ho : offset < ssx)
+    (hbuf : conv = true → ssx ≤ BUFFER_BYTES / nbpp) :
+    PlRowSpec' ssx offset width yoff (convPlanar conv nbpp ssx offset width yoff) := by
+  cases conv with
+  | false =>
+    have : convPlanar false nbpp ssx offset width yoff = planarHelper ssx offset width yoff := by
+      unfold convPlanar; simp
+    rw [this]; exact planarHelper_spec' ssx offset width yoff hs ho
+  | true =>
+    rw [convPlanar_eq_true]
+    obtain ⟨hp1, hp2, _⟩ := roundDown_props hs (hbuf rfl)
+    by_cases h0 : offset = 0
+    · subst h0
+      simp only [ne_eq, not_true_eq_false, if_false, List.nil_append]
+      have hcs := plChunks_sound ssx 0 0 0 width _ yoff hs hp1 hp2 (by intro _; omega)
+      have hcc := plChunks_cover ssx 0 0 width _ yoff hs hp1
+      constructor
+      · intro r hr
+        obtain ⟨a1, a2, a3, a4, a5, a6, a7, a8, a9, a10⟩ := hcs r hr
+        exact ⟨a1, a2, a3, a4, by omega, a7, a8, a9, a10⟩
+      · intro c hc
+        exact hcc c (Nat.zero_le _) (by omega)
+    · simp only [ne_eq, h0, not_false_eq_true, if_true]
+      have hpre := planarHelper_spec' ssx offset (min (ssx - offset) width) yoff hs ho
+      have hcs := plChunks_sound ssx offset (min (ssx - offset) width) 1 (width - min (ssx - offset) width) _ yoff
+        hs hp1 hp2 (by intro h; omega)
+      have hcc := plChunks_cover ssx (min (ssx - offset) width) 1 (width - min (ssx - offset) width) _ yoff hs hp1
+      constructor
+      · intro r hr
+        rcases List.mem_append.1 hr with hr | hr
+        · obtain ⟨a1, a2, a3, a4, a5, a6, a7, a8, a9⟩ := hpre.sound r hr
+          exact ⟨a1, a2, a3, a4, by omega, a6, a7, a8, a9⟩
+        · obtain ⟨a1, a2, a3, a4, a5, a6, a7, a8, a9, a10⟩ := hcs r hr
+          exact ⟨a1, a2, a3, a4, by omega, a7, a8, a9, a10⟩
+      · intro c hc
+        by_cases hc0 : c < min (ssx - offset) width
+        · obtain ⟨r, hr, b1, b2⟩ := hpre.cover c hc0
+          exact ⟨r, List.mem_append.2 (Or.inl hr), b1, b2⟩
+        · obtain ⟨r, hr, b1, b2⟩ := hcc c (by omega) (by omega)
+          exact ⟨r, List.mem_append.2 (Or.inr hr), b1, b2⟩
+
 end Dds.Addr
